@@ -146,10 +146,17 @@ func TestVX_C09_Glue(t *testing.T) {
 		}
 		var ref trace.Result
 		distinct := map[uint64]bool{}
-		for i, rn := range runs {
+		record := func(f func()) (trace.Result, string, string) {
 			trace.Start(true)
-			kind, msg := vx.Try(rn.f)
-			res := trace.Stop()
+			kind, msg := vx.Try(f)
+			return trace.Stop(), kind, msg
+		}
+		same := func(a, b trace.Result) bool { return a.Hash == b.Hash && a.Events == b.Events }
+		// warm-up: whatever the first call of a process does differently (a pool's constructor, a lazily built table) is
+		// history, not data
+		record(runs[0].f)
+		for i, rn := range runs {
+			res, kind, msg := record(rn.f)
 			r.Eval(1)
 			cs := glueCase{name, rn.name, runs[0].name}
 			if kind != "" {
@@ -159,11 +166,51 @@ func TestVX_C09_Glue(t *testing.T) {
 			if i == 0 {
 				ref = res
 			}
-			distinct[res.Hash^res.Events<<48] = true
-			if res.Hash != ref.Hash || res.Events != ref.Events {
-				where := glueDiverge(runs[0].f, rn.f)
-				r.Violation("glue:trace-differs:"+where, fmt.Sprintf("%s: the Go code around the kernels took a different path / touched different indexes for %s than for %s; the traces first diverge at %s", name, rn.name, runs[0].name, where), cs)
+			if !same(res, ref) {
+				// data-dependent or history-dependent (pools emptied by the collector, caches)? The sequence A A B B A B is
+				// recorded until two consecutive passes agree position by position: all equal = a history effect that died
+				// out; otherwise the trace depends on the key / data (or on its repetition)
+				verdict := "unstable"
+				seqS := []func(){runs[0].f, runs[0].f, rn.f, rn.f, runs[0].f, rn.f}
+				pass := func() []trace.Result {
+					out := make([]trace.Result, len(seqS))
+					for k, f := range seqS {
+						out[k], _, _ = record(f)
+					}
+					return out
+				}
+				prev := pass()
+				for try := 0; try < 4 && verdict == "unstable"; try++ {
+					cur := pass()
+					stable := true
+					for k := range cur {
+						stable = stable && same(cur[k], prev[k])
+					}
+					if stable {
+						allEq := true
+						for k := range cur {
+							allEq = allEq && same(cur[k], cur[0])
+						}
+						if allEq {
+							verdict, ref = "history", cur[0]
+						} else {
+							verdict = "data"
+						}
+					}
+					prev = cur
+				}
+				switch verdict {
+				case "data":
+					where := glueDiverge(runs[0].f, rn.f)
+					r.Violation("glue:trace-differs:"+where, fmt.Sprintf("%s: the Go code around the kernels took a different path / touched different indexes for %s than for %s (reproduced in alternating order); the traces first diverge at %s", name, rn.name, runs[0].name, where), cs)
+				case "history":
+					r.Add("observation_history_dependent_trace_differences", 1)
+				default:
+					r.Add("observation_unstable_traces", 1)
+					r.NotExhaustive("traces of group " + name + " did not stabilise (history-dependent code such as pools): the group is not judged")
+				}
 			}
+			distinct[res.Hash^res.Events<<48] = true
 		}
 		r.Shape(name)
 		r.Sample(map[string]interface{}{"group": name, "runs": len(runs), "distinct_traces": len(distinct), "events": ref.Events})
